@@ -103,7 +103,11 @@ def run(args):
 
 
 def result_written(path, stdout):
-	return (path is not None and path.exists() and path.stat().st_size > 0) or bool(stdout.strip())
+	"""A non-empty output file, or something that looks like a result (CSV header / matrix / JSON / Newick) on stdout.
+	An error message printed on stdout is not a result."""
+	so = stdout.lstrip()
+	looks_like_result = so.startswith(('query,', ',', '{', '[', '(')) and len(so) > 2
+	return (path is not None and path.exists() and path.stat().st_size > 0) or looks_like_result
 
 
 def expect_error(ctx, cls, rel, args, out, w):
